@@ -163,7 +163,7 @@ def exits(stmts):
     if not stmts:
         return False
     s = stmts[-1]
-    if isinstance(s, (ast.Return, ast.Raise, ast.Continue)):
+    if isinstance(s, (ast.Return, ast.Raise, ast.Continue, ast.Break)):
         return True
     if isinstance(s, ast.If):
         return exits(s.body) and exits(s.orelse)
@@ -173,7 +173,7 @@ def exits(stmts):
 def may_exit(stmts):
     """some path through the block ends in return / raise / continue (not counting nested loops' own `continue`)"""
     for s in stmts:
-        if isinstance(s, (ast.Return, ast.Raise, ast.Continue)):
+        if isinstance(s, (ast.Return, ast.Raise, ast.Continue, ast.Break)):
             return True
         if isinstance(s, ast.If) and (may_exit(s.body) or may_exit(s.orelse)):
             return True
@@ -589,6 +589,10 @@ class Fn:
             if self.loop_k is None:
                 raise Unsupported("continue outside a loop")
             return f"{ind}{self.loop_k}\n"
+        if isinstance(s, ast.Break):
+            if self.break_k is None:
+                raise Unsupported("break outside a loop")
+            return f"{ind}{self.break_k}\n"
         if isinstance(s, (ast.Assign, ast.AnnAssign)):
             if isinstance(s, ast.Assign):
                 if len(s.targets) != 1:
@@ -773,16 +777,37 @@ class Fn:
             vs = [v for v in assigned(s.body, self.cls.mutators) if v in defined or v == "self"]
             if not vs:
                 raise Unsupported("a loop without effect")
+            def has_break(stmts):
+                for x in stmts:
+                    if isinstance(x, ast.Break):
+                        return True
+                    if isinstance(x, ast.If) and (has_break(x.body) or has_break(x.orelse)):
+                        return True
+                    if isinstance(x, ast.Try) and (has_break(x.body) or any(has_break(h.body) for h in x.handlers)):
+                        return True
+                return False
+
+            brk = has_break(s.body)
             t = self.tup(vs)
-            saved = self.loop_k
-            self.loop_k = "pure " + t
+            saved, saved_b = self.loop_k, self.break_k
             self.after.append(list(s.body) + rest)
             self.bind_target(s.target, s.iter)
-            body = self.block(s.body, "pure " + t, ind + "    ", defined | tnames)
+            if not brk:
+                self.loop_k, self.break_k = "pure " + t, None
+                body = self.block(s.body, "pure " + t, ind + "    ", defined | tnames)
+                out = (f"{ind}let {t} ← List.foldlM (fun {t} {self.pat(s.target)} => do\n{body}{ind}  ) {t} {self.iter_of(s.iter)}\n")
+            else:
+                # `break`: the fold carries a flag; once it is set the remaining elements are passed over
+                tb = "(" + ", ".join(vs + ["brk"]) + ")"
+                self.loop_k = "pure " + tb
+                self.break_k = "pure (" + ", ".join(vs + ["true"]) + ")"
+                body = self.block(s.body, "pure " + tb, ind + "      ", defined | tnames)
+                t0 = "(" + ", ".join(vs + ["false"]) + ")"
+                out = (f"{ind}let {tb} ← List.foldlM (fun {tb} {self.pat(s.target)} => do\n{ind}    if brk then pure {tb} else do\n{body}"
+                       f"{ind}  ) {t0} {self.iter_of(s.iter)}\n")
             self.after.pop()
-            self.loop_k = saved
-            return (f"{ind}let {t} ← List.foldlM (fun {t} {self.pat(s.target)} => do\n{body}{ind}  ) {t} {self.iter_of(s.iter)}\n"
-                    + self.block(rest, k, ind, defined))
+            self.loop_k, self.break_k = saved, saved_b
+            return out + self.block(rest, k, ind, defined)
         raise Unsupported("statement " + ast.dump(s))
 
     def translate(self):
@@ -799,6 +824,7 @@ class Fn:
         self.mutator = fn.name in self.cls.mutators
         self.mutval = fn.name in self.cls.mutvals
         self.loop_k = None
+        self.break_k = None
         self.after = []
         self.known = {}
         counts = {}
@@ -866,7 +892,7 @@ INDEX_METHODS = [
 ]
 
 # the methods of `TinyFlux` that are translated (the list level: storage is the decoded view of its rows)
-DATABASE_METHODS = ["_reset_database", "_remove_helper"]
+DATABASE_METHODS = ["_reset_database", "_remove_helper", "count", "contains"]
 
 
 def generate_index(src: str) -> str:
